@@ -5,7 +5,7 @@ package main
 // inside and after the startup window.
 //
 //	startup=<part>[+<part>...]   part = once:N | const:OPS:MS | constm:MILLIOPS:MS (fractional rate) | step:FROM:TO:STEP:MS |
-//	                             [<part>+<part>...] (a NESTED composite)                       (real schedule constructors)
+//	                             [<part>+<part>...] (a NESTED composite) | none (a composite of NO parts)   (real schedule constructors)
 //	rps=<part>[+...] [perinst=1] ammo=<N, 0 = unlimited> resp=<ms> [cancel=<ms>] [gundelay=<ms>: every instance gun takes that long to create]
 //	[prov=mem: a provider whose Acquire does not depend on its context (default: provider.NewNum, which stops handing out ammo once the run is cancelled)]
 //	an instance that cannot be created, at each of the three points of newInstance (j = 0-based creation attempt):
@@ -39,6 +39,14 @@ package main
 //	that has reported its end> mfin=<Metrics.InstanceFinish, as mstart: of the engine minus the closed guns of the other pools> (cut `fail` = an instance could not be created or the provider / aggregator failed; cut `panic` = a gun panicked)
 //	rpsgiven=<tokens handed out (successful Next calls, counted at the end of the run) by every RPS schedule object that has reported
 //	its end, in the order of rpsspans>
+//	round 4: rpsl0=<Left() of a fresh, never started copy of the RPS profile> sul0=<the same of the startup profile> (what a profile
+//	answers BEFORE anything was drawn: its number of tokens, or a negative number when a part has unknown length)
+//	rpsleaf=<tokens handed out by the LEAVES (once / const / unlimited / instance_step parts) of all RPS schedule objects of the pool, -1 =
+//	not counted (cfg=yaml)> rpsout=<tokens those objects handed to their callers>: a token a part gave that no caller of the profile got
+//	was consumed inside the profile
+//	input yield=<µs>: at the scheduling points of core/schedule/composite.go (lib/verifhook, between the reader and the writer section
+//	of Next / Left) a goroutine sleeps that long, so that several instances that reach the end of a part together are all between
+//	the two sections at once
 
 import (
 	"context"
@@ -51,6 +59,7 @@ import (
 	"strconv"
 	"strings"
 	"sync"
+	"sync/atomic"
 	"time"
 
 	"verifharness/drv"
@@ -64,6 +73,7 @@ import (
 	"github.com/yandex/pandora/core/provider"
 	"github.com/yandex/pandora/core/register"
 	"github.com/yandex/pandora/core/schedule"
+	"github.com/yandex/pandora/lib/verifhook"
 	yaml "gopkg.in/yaml.v2"
 	"go.uber.org/zap"
 	"go.uber.org/zap/zapcore"
@@ -368,12 +378,29 @@ func splitTop(p string) []string {
 	return append(out, p[from:])
 }
 
-func buildProfile(p string) core.Schedule {
+// leafCnt counts the tokens a leaf of a profile hands out
+type leafCnt struct {
+	core.Schedule
+	n *int64
+}
+
+func (l *leafCnt) Next() (time.Time, bool) {
+	ts, ok := l.Schedule.Next()
+	if ok {
+		atomic.AddInt64(l.n, 1)
+	}
+	return ts, ok
+}
+
+func buildProfile(p string) core.Schedule { return buildProfileC(p, nil) }
+
+// buildProfileC: cnt != nil: every leaf is wrapped in a counter of the tokens it hands out
+func buildProfileC(p string, cnt *int64) core.Schedule {
 	var parts []core.Schedule
 	for _, seg := range splitTop(p) {
 		if strings.HasPrefix(seg, "[") && strings.HasSuffix(seg, "]") {
 			// a nested composite, built by the same constructor as the outer one
-			parts = append(parts, buildProfile(seg[1:len(seg)-1]))
+			parts = append(parts, buildProfileC(seg[1:len(seg)-1], cnt))
 			continue
 		}
 		f := strings.Split(seg, ":")
@@ -385,6 +412,9 @@ func buildProfile(p string) core.Schedule {
 			return v
 		}
 		switch {
+		case seg == "none":
+			// a composite of NO parts (an empty list in the config)
+			parts = append(parts, schedule.NewCompositeConf(schedule.CompositeConf{}))
 		case f[0] == "once" && len(f) == 2:
 			parts = append(parts, schedule.NewOnceConf(schedule.OnceConfig{Times: n(1)}))
 		case f[0] == "const" && len(f) == 3:
@@ -397,6 +427,13 @@ func buildProfile(p string) core.Schedule {
 			parts = append(parts, schedule.NewInstanceStepConf(schedule.InstanceStepConfig{From: n(1), To: n(2), Step: n(3), StepDuration: time.Duration(n(4)) * time.Millisecond}))
 		default:
 			panic("bad profile " + seg)
+		}
+	}
+	if cnt != nil {
+		for i, seg := range splitTop(p) {
+			if !strings.HasPrefix(seg, "[") {
+				parts[i] = &leafCnt{Schedule: parts[i], n: cnt}
+			}
 		}
 	}
 	return schedule.NewCompositeConf(schedule.CompositeConf{Nested: parts})
@@ -442,6 +479,8 @@ func yamlPart(seg string, depth int) string {
 		return v
 	}
 	switch {
+	case seg == "none":
+		return "{type: composite, nested: []}"
 	case f[0] == "once" && len(f) == 2:
 		return fmt.Sprintf("{type: once, times: %d}", n(1))
 	case f[0] == "const" && len(f) == 3:
@@ -531,6 +570,11 @@ type poolCase struct {
 	ctoks []int64
 	// tokens of a drained copy of the RPS profile; -1: not countable
 	rpsTot int64
+	// Left() of never started copies of the RPS / the startup profile
+	rpsLeft0, suLeft0 int64
+	// tokens handed out by the leaves of the RPS schedule objects given to the engine; counted: the leaves are wrapped
+	rpsLeaf    int64
+	leafCounts bool
 	rpsMu  sync.Mutex
 	rpss   []*rpsSched
 	conf   engine.InstancePoolConfig
@@ -542,6 +586,7 @@ func newPoolCase(id string, m map[string]string) *poolCase {
 	mkStartup := func() core.Schedule { return buildProfile(m["startup"]) }
 	mkRps := func() (core.Schedule, error) { return buildProfile(m["rps"]), nil }
 	perinst := m["perinst"] == "1"
+	pc.leafCounts = m["cfg"] != "yaml"
 	if m["cfg"] == "yaml" {
 		mkStartup = func() core.Schedule { return decodePool(id, m).StartupSchedule }
 		dec := decodePool(id, m)
@@ -549,6 +594,12 @@ func newPoolCase(id string, m map[string]string) *poolCase {
 		perinst = dec.RPSPerInstance
 		pc.id = dec.ID
 	}
+	if fresh, err := mkRps(); err == nil {
+		pc.rpsLeft0 = int64(fresh.Left())
+	} else {
+		panic("rps: " + err.Error())
+	}
+	pc.suLeft0 = int64(mkStartup().Left())
 	if strings.Contains(m["rps"], "unlim") {
 		pc.rpsTot = -1
 	} else {
@@ -667,8 +718,11 @@ func newPoolCase(id string, m map[string]string) *poolCase {
 					return nil, errors.New("schedule cannot be created")
 				}
 			}
-			inner, err := mkRps()
-			if err != nil {
+			var inner core.Schedule
+			var err error
+			if pc.leafCounts {
+				inner = buildProfileC(m["rps"], &pc.rpsLeaf)
+			} else if inner, err = mkRps(); err != nil {
 				return nil, err
 			}
 			rs := &rpsSched{Schedule: inner, r: r, first: -1, fin: -1}
@@ -736,6 +790,9 @@ func run(input string) string {
 			tm := time.AfterFunc(time.Duration(ms)*time.Millisecond, do)
 			defer tm.Stop()
 		}
+	}
+	if y := atoiKV(m, "yield", 0); y > 0 {
+		verifhook.Yield = func(string) { time.Sleep(time.Duration(y) * time.Microsecond) }
 	}
 	err := eng.Run(ctx)
 	end := clk.Now()
@@ -864,9 +921,14 @@ func (pc *poolCase) observation(logs *observer.ObservedLogs, e string, end int64
 		shots = append(shots, fmt.Sprintf("%d:%d", id, r.shots[id]))
 	}
 	var spans, given []string
+	rpsOut, rpsLeaf := int64(0), int64(-1)
+	if pc.leafCounts {
+		rpsLeaf = atomic.LoadInt64(&pc.rpsLeaf)
+	}
 	pc.rpsMu.Lock()
 	for _, rs := range pc.rpss {
 		rs.mu.Lock()
+		rpsOut += rs.given
 		if rs.fin >= 0 {
 			first := rs.first
 			if first < 0 || first > rs.fin {
@@ -878,10 +940,10 @@ func (pc *poolCase) observation(logs *observer.ObservedLogs, e string, end int64
 		rs.mu.Unlock()
 	}
 	pc.rpsMu.Unlock()
-	return fmt.Sprintf("k=%d err=%s end=%d mstart=%d fails=%d total=%d started=%d starterr=%s running=%d ids=%s toks=%s picks=%s ctoks=%s guns=%s binds=%s exits=%s cuts=%s jitter=%d lastshot=%d gunctx=%d allawaited=%d shots=%s rpstot=%d rpsmin=%d rpsspans=%s mfin=%d rpsgiven=%s",
+	return fmt.Sprintf("k=%d err=%s end=%d mstart=%d fails=%d total=%d started=%d starterr=%s running=%d ids=%s toks=%s picks=%s ctoks=%s guns=%s binds=%s exits=%s cuts=%s jitter=%d lastshot=%d gunctx=%d allawaited=%d shots=%s rpstot=%d rpsmin=%d rpsspans=%s mfin=%d rpsgiven=%s rpsl0=%d sul0=%d rpsleaf=%d rpsout=%d",
 		len(r.binds), e, end, int64(len(r.binds))+extraStarts, r.fails, len(pc.ctoks), started, starterr, len(r.binds)-len(r.exits), joinInts(ids),
 		joinInts(r.toks), joinInts(r.picks), joinInts(pc.ctoks), joinInts(r.guns), strings.Join(binds, ","), strings.Join(exits, ","), strings.Join(cuts, ","), jitter,
-		r.lastShot, r.gunCtx, allAwaited, strings.Join(shots, ","), pc.rpsTot, rpsMin(pc.m["rps"]), strings.Join(spans, ","), int64(len(r.exits))+extraFinishes, strings.Join(given, ","))
+		r.lastShot, r.gunCtx, allAwaited, strings.Join(shots, ","), pc.rpsTot, rpsMin(pc.m["rps"]), strings.Join(spans, ","), int64(len(r.exits))+extraFinishes, strings.Join(given, ","), pc.rpsLeft0, pc.suLeft0, rpsLeaf, rpsOut)
 }
 
 // startup profiles with every token at a multiple of 1 s (so that causes can be placed 500 ms away from every token)
@@ -1073,6 +1135,18 @@ func genRpsUnknown(r *rand.Rand) string {
 	return nest(r, strings.Join(ps, "+"), r.Intn(3))
 }
 
+// withBoundaryRace: K instances started at once, an RPS profile whose first part is a burst of K tokens (so that all K instances come
+// back to the head of their loop together and find that part drained), behind it another burst / a pause and a burst / a short const
+// part, then a part of unknown length — `Left()` has to move on to the next part itself, with several callers in between its reader
+// and its writer section (yield=: they all sleep there)
+func withBoundaryRace(r *rand.Rand) string {
+	k := 2 + r.Intn(3)
+	mid := []string{fmt.Sprintf("once:%d", 1+r.Intn(4)), fmt.Sprintf("const:0:100+once:%d", 1+r.Intn(3)), "const:20:200", fmt.Sprintf("once:%d+once:%d", k, 1+r.Intn(3))}[r.Intn(4)]
+	tail := []string{"", "+once:1", "+const:0:100+once:2"}[r.Intn(3)]
+	return fmt.Sprintf("startup=once:%d rps=once:%d+%s+unlim:%d%s ammo=0 resp=%d yield=%d%s", k, k, mid, 100*(2+r.Intn(4)), tail, 2+r.Intn(6), 500*(1+r.Intn(6)),
+		[]string{"", " prov=mem"}[r.Intn(2)])
+}
+
 // withUnknownRps: a pool whose RPS profile (shared or per instance) has an unlimited part behind other parts, under a startup
 // profile that still has tokens to come when the first instance consults the RPS profile
 func withUnknownRps(r *rand.Rand) string {
@@ -1212,6 +1286,17 @@ func gen(r *rand.Rand, tier string) []string {
 		"startup=const:2:1000 rps=once:1+[const:0:300+unlim:400]+const:0:200+once:1 ammo=0 resp=10 prov=mem",
 	)
 	out = append(out,
+		// round 4 — several instances reach the end of a part of the RPS profile together and `Left()` itself has to move on (a part
+		// of unknown length behind): every token of the next parts must still reach an instance
+		// a composite of no parts: no token, no time — alone (nothing may start), between other parts, in the RPS profile
+		"startup=none rps=const:10:300 ammo=0 resp=0",
+		"startup=once:2+none+const:0:300+[none+once:1] rps=none+const:10:800+none ammo=0 resp=0",
+		"startup=none+step:0:2:1:300 rps=const:10:300+none+unlim:300 ammo=0 resp=5 cfg=yaml",
+		"startup=once:3 rps=once:3+once:3+unlim:300 ammo=0 resp=5 yield=2000",
+		"startup=once:4 rps=once:4+const:0:100+once:2+unlim:300+once:1 ammo=0 resp=3 yield=1000",
+		"startup=once:2 rps=[once:2+once:2]+const:20:200+unlim:200 ammo=0 resp=5 yield=3000 prov=mem",
+	)
+	out = append(out,
 		// the pool as a config FILE: the four examples of docs/eng/startup.md (durations scaled down), decoded by core/config with
 		// the registrations of core/import; nested lists, `rps-per-instance`, an unlimited part, a fractional rate
 		"startup=once:10 rps=const:20:600 ammo=0 resp=0 cfg=yaml",
@@ -1225,15 +1310,16 @@ func gen(r *rand.Rand, tier string) []string {
 	asFile := func(in string) string {
 		segs := strings.Split(in, " || ")
 		for i := range segs {
-			if r.Intn(4) == 0 {
+			// (`once` with times: 0 is built by the constructors — instance_step does it — but refused in a config file: min=1)
+			if r.Intn(4) == 0 && !strings.Contains(segs[i]+" ", "once:0+") && !strings.Contains(segs[i]+" ", "once:0]") && !strings.Contains(segs[i]+" ", "once:0 ") {
 				segs[i] += " cfg=yaml"
 			}
 		}
 		return strings.Join(segs, " || ")
 	}
-	n, nfree, npools, nunk := 14, 6, 2, 4
+	n, nfree, npools, nunk, nrace := 14, 6, 2, 4, 3
 	if tier == "thorough" {
-		n, nfree, npools, nunk = 1000, 800, 150, 150
+		n, nfree, npools, nunk, nrace = 1000, 800, 150, 150, 80
 		// exhaustive small grid: every profile shape x every cause x every position of the cause
 		for _, su := range gridProfiles {
 			out = append(out, withCause(r, su, 0, 0), withCause(r, su, 5, 0))
@@ -1269,6 +1355,9 @@ func gen(r *rand.Rand, tier string) []string {
 	}
 	for i := 0; i < nunk; i++ {
 		out = append(out, asFile(withUnknownRps(r)))
+	}
+	for i := 0; i < nrace; i++ {
+		out = append(out, withBoundaryRace(r))
 	}
 	return out
 }
@@ -1380,6 +1469,10 @@ func main() {
 			"pools. Round 3: shots per instance against the RPS profile (composite / unlimited / per-instance RPS profiles, ammo running out first), guns whose Close " +
 			"fails or that panic, providers / aggregators that return early, fail, or answer the end of the run with the context error, a pool that cannot begin " +
 			"(shared RPS schedule / warm-up gun), two creation failures, more instances than the result buffer, exact fractional rates, InstanceFinish. " +
+			"Round 4: RPS profiles with an unlimited part behind parts of 0 / 1 / 2 / few tokens (nested, shared or per instance) while the startup profile still " +
+			"releases tokens; every fourth pool written as a config file (YAML, decoded by core/config); composites of no parts; K instances reaching the end of a " +
+			"part of the RPS profile together with sleeps at the scheduling points of composite.go (yield=); Left() of never started profiles; tokens handed out by " +
+			"the leaves against tokens received by the instances. " +
 			"non-trivial = the engine ran; distinct = distinct input line",
 	})
 }
